@@ -38,7 +38,7 @@ def describe(tier):
             "non-decreasing start order (so overlapping, nested and identical spans occur in every order), child type from `types`, child value in "
             "{covered text, empty, b'Z', covered text + b'Z'}. Oracles on every tree: flatten() == reference flatten written from the statement "
             "(selection first, right-to-left splice); identity clause (no node differs from the text it covers => output is the root value); "
-            "squash_replace(value, children) == flatten() whenever no two substituted results overlap at any level. Additionally root.flatten() of every "
+            "squash_replace(value, children) == flatten() whenever no two substituted results overlap at any level; flatten() again after every single grandchild value change must give the reference result for the CHANGED tree. Additionally (incl. shallow scan -> flatten -> in-place expansion with scan_node -> flatten) root.flatten() of every "
             f"scan tree of the {STREAM_FAMS} scan-level families is compared with the reference applied to that tree. states = distinct trees, transitions = "
             "nodes flattened, traces = flatten calls compared. Non-trivial = tree in which at least one child is substituted and at least one is skipped or left alone."
         ),
@@ -100,13 +100,54 @@ def check_tree(rec, value, kids, w, size, root=None):
             ok, sq = rec.guard("C19.total", w, size, squash_replace, value, root.children)
         if ok and sq != got:
             rec.violation("C19.squash", "squash-differs-without-overlap", w, f"squash_replace = {sq!r} but flatten() = {got!r} although no substituted results overlap", size)
+    # flatten again after the tree changed below the root (a result must describe the tree as it is now)
+    for ci, c in enumerate(root.children):
+        for gi, g in enumerate(c.children):
+            old = g.value
+            g.value = old + b"!"
+            ok2, got2 = rec.guard("C19.total", w, size, root.flatten)
+            g.value = old
+            if ok2:
+                kids2 = [k if i != ci else (k[0], k[1], k[2], k[3], k[4], [gk if j != gi else (gk[0], gk[1] + b"!", gk[2], gk[3], gk[4], gk[5]) for j, gk in enumerate(k[5])])
+                         for i, k in enumerate(kids)]
+                exp2 = fr.ref_flatten(value, kids2)
+                if got2 != exp2:
+                    rec.violation("C19.flatten.current-tree", "stale-after-change-below", w,
+                                  f"after changing a grandchild's value flatten() = {got2!r}, the statement gives {exp2!r} (first call gave {got!r})", size)
+                    break
     n_sub = sum(1 for c in kids if fr.ref_flatten(c[1], c[5]) != value[c[3]:c[4]])
     if 0 < n_sub < len(kids):
         return True
     return False
 
 
+def expand_and_reflatten(rec, case):
+    """scan(data, 1).flatten(); then the same tree is expanded in place with scan_node(tree, 10) and flattened again."""
+    from multidecoder.multidecoder import Multidecoder
+
+    md = Multidecoder(streams.registry())
+    w = dict(case.witness(), sequence="scan(depth 1), flatten, scan_node(tree, 10), flatten")
+    ok, t = rec.guard("C19.total", w, case.size, md.scan, case.data, 1)
+    if not ok or not t.children:
+        return
+    ok, _ = rec.guard("C19.total", w, case.size, t.flatten)
+    ok2, _ = rec.guard("C19.total", w, case.size, md.scan_node, t, 10)
+    if not (ok and ok2):
+        return
+    spec = fr.spec_of(t)
+    if not in_precondition(case.data, spec[5]):
+        return
+    ok, got = rec.guard("C19.total", w, case.size, t.flatten)
+    exp = fr.ref_flatten(case.data, spec[5])
+    rec.count("traces")
+    if ok and got != exp:
+        rec.violation("C19.flatten.current-tree", "stale-after-expansion", w,
+                      f"flatten() after expanding a shallow scan in place = {core.short(got, 120)}; the expanded tree flattens to {core.short(exp, 120)}", case.size)
+
+
 def stream_monitor(rec, case):
+    if case.family in ("mix", "ctx"):
+        expand_and_reflatten(rec, case)
     spec = fr.spec_of(case.tree)
     kids = spec[5]
     if not in_precondition(case.data, kids):
